@@ -929,7 +929,7 @@ impl Property for C11 {
         C11 { router: VerifRouter::new(o) }
     }
     fn n_cases(&self, tier: Tier) -> u64 {
-        tier.pick(300_000, 6_000_000)
+        tier.pick(1_200_000, 6_000_000)
     }
     fn chunk(&self, _tier: Tier) -> u64 {
         10_000
